@@ -26,7 +26,9 @@ CONSTANTS
   SLOT,        \* address distance between two granted blocks
   MaxLive,     \* bound on simultaneously live blocks
   MaxRefuse,   \* up to this many refusals precede a grant
-  GrowIncs, ShrinkDecs, ClosSizes
+  GrowIncs, ShrinkDecs, ClosSizes,
+  TrackLive,   \* FALSE: allocations are not remembered (configs about limits / accounting only)
+  EnableTryFill
 
 VARIABLES ar, sent, heap, live, nslot, err
 vars == <<ar, sent, heap, live, nslot, err>>
@@ -104,15 +106,15 @@ CreateWithCapacity(ma, cap) ==
           /\ UNCHANGED <<sent, live>>
 
 \* any of the plain allocation methods: (try_)alloc_layout and everything built on it
-AllocOp(size, align) ==
-  /\ Alive /\ Cardinality(live) < MaxLive
-  /\ \E answers \in AnswerSeqs(ChunkAlign(align)) :
-       LET r == Alloc(ar, sent, size, align, answers, FUEL)
-           b == Blk(r.addr, size, align)
+AllocOp(size, align, answers) ==
+  /\ Alive /\ (TrackLive => Cardinality(live) < MaxLive)
+  /\ answers \in AnswerSeqs(ChunkAlign(align))
+  /\ LET r == Alloc(ar, sent, size, align, answers, FUEL)
+         b == Blk(r.addr, size, align)
        IN /\ ar' = r.a /\ sent' = r.sent
           /\ heap' = HeapAfter(r.a)
           /\ nslot' = IF Granted(r.reqs, answers) # {} THEN nslot + 1 ELSE nslot
-          /\ live' = IF r.ok THEN live \cup {b} ELSE live
+          /\ live' = IF r.ok /\ TrackLive THEN live \cup {b} ELSE live
           /\ err' = err \cup AcquireErrs(r, answers, ar.lim, TRUE) \cup FitsErrs(r, size, align)
                         \cup (IF r.ok THEN NewBlockErrs(b, r.a, live \ {b}) ELSE {})
 
@@ -123,10 +125,10 @@ DeallocOp(b) ==
      /\ live' = live \ {b}
      /\ UNCHANGED <<heap, nslot, err>>
 
-GrowOp(b, inc, nal) ==
+GrowOp(b, inc, nal, answers) ==
   /\ Alive /\ b \in live
-  /\ \E answers \in AnswerSeqs(ChunkAlign(nal)) :
-       LET r == Grow(ar, sent, b.addr, b.size, b.align, b.size + inc, nal, answers, FUEL)
+  /\ answers \in AnswerSeqs(ChunkAlign(nal))
+  /\ LET r == Grow(ar, sent, b.addr, b.size, b.align, b.size + inc, nal, answers, FUEL)
            nb == Blk(r.addr, b.size + inc, nal)
            mv == IF r.ok /\ r.copy # <<>> THEN r.copy ELSE <<>>
        IN /\ ar' = r.a /\ sent' = r.sent
@@ -139,10 +141,10 @@ GrowOp(b, inc, nal) ==
                         \cup (IF mv # <<>> /\ mv[3] > 0 /\ ~(mv[1] + mv[3] <= mv[2] \/ mv[2] + mv[3] <= mv[1])
                               THEN {"C02.grow-copy-overlaps"} ELSE {})
 
-ShrinkOp(b, dec, nal) ==
+ShrinkOp(b, dec, nal, answers) ==
   /\ Alive /\ b \in live /\ dec <= b.size
-  /\ \E answers \in AnswerSeqs(ChunkAlign(nal)) :
-       LET r == Shrink(ar, sent, b.addr, b.size, b.align, b.size - dec, nal, answers, FUEL)
+  /\ answers \in AnswerSeqs(ChunkAlign(nal))
+  /\ LET r == Shrink(ar, sent, b.addr, b.size, b.align, b.size - dec, nal, answers, FUEL)
            nb == Blk(r.addr, b.size - dec, nal)
            cp == IF r.ok THEN r.copy ELSE <<>>
        IN /\ ar' = r.a /\ sent' = r.sent
@@ -156,10 +158,10 @@ ShrinkOp(b, dec, nal) ==
 
 \* (try_)alloc_try_with: slot of (ssize, salign); the initialiser allocates closn bytes
 \* (closk: 0 nothing, 1 keep, 2 release); okf: does it return Ok
-TryWithOp(ssize, salign, okf, closk, closn) ==
+TryWithOp(ssize, salign, okf, closk, closn, ans1) ==
   /\ Alive /\ Cardinality(live) + 2 <= MaxLive
-  /\ \E ans1 \in AnswerSeqs(ChunkAlign(salign)) :
-       LET rw == [n |-> Len(ar.ch), finger |-> CurFinger(ar, sent)]
+  /\ ans1 \in AnswerSeqs(ChunkAlign(salign))
+  /\ LET rw == [n |-> Len(ar.ch), finger |-> CurFinger(ar, sent)]
            capB == Capacity(ar, sent)
            r1 == Alloc(ar, sent, ssize, salign, ans1, FUEL)
        IN IF ~r1.ok
@@ -199,11 +201,11 @@ TryWithOp(ssize, salign, okf, closk, closn) ==
                                       THEN {"C11.rewind-exposes-live-block"} ELSE {})
 
 \* alloc_slice_try_fill_*: reserve, initialiser fails, reservation released via dealloc
-TryFillFail(size, align) ==
-  /\ Alive
+TryFillFail(size, align, answers) ==
+  /\ Alive /\ EnableTryFill
   /\ size % align = 0        \* Layout::array::<T>(len): the size is a multiple of the alignment
-  /\ \E answers \in AnswerSeqs(ChunkAlign(align)) :
-       LET r == Alloc(ar, sent, size, align, answers, FUEL)
+  /\ answers \in AnswerSeqs(ChunkAlign(align))
+  /\ LET r == Alloc(ar, sent, size, align, answers, FUEL)
            w == IF r.ok THEN Dealloc(r.a, r.sent, r.addr, size) ELSE [a |-> r.a, sent |-> r.sent]
            again == Alloc(w.a, w.sent, size, align, [i \in 1..FUEL |-> 0], FUEL)
        IN /\ ar' = w.a /\ sent' = w.sent
@@ -250,12 +252,13 @@ DropOp ==
 Next ==
   \/ \E ma \in MinAligns : Create(ma)
   \/ \E ma \in MinAligns, cap \in Caps : CreateWithCapacity(ma, cap)
-  \/ \E s \in Sizes, al \in Aligns : AllocOp(s, al)
+  \/ \E s \in Sizes, al \in Aligns : \E ans \in AnswerSeqs(ChunkAlign(al)) : AllocOp(s, al, ans)
   \/ \E b \in live : DeallocOp(b)
-  \/ \E b \in live, inc \in GrowIncs, al \in Aligns : GrowOp(b, inc, al)
-  \/ \E b \in live, dec \in ShrinkDecs, al \in Aligns : ShrinkOp(b, dec, al)
-  \/ \E s \in Sizes, al \in Aligns, okf \in BOOLEAN, ck \in 0..2, cn \in ClosSizes : TryWithOp(s, al, okf, ck, cn)
-  \/ \E s \in Sizes, al \in Aligns : TryFillFail(s, al)
+  \/ \E b \in live, inc \in GrowIncs, al \in Aligns : \E ans \in AnswerSeqs(ChunkAlign(al)) : GrowOp(b, inc, al, ans)
+  \/ \E b \in live, dec \in ShrinkDecs, al \in Aligns : \E ans \in AnswerSeqs(ChunkAlign(al)) : ShrinkOp(b, dec, al, ans)
+  \/ \E s \in Sizes, al \in Aligns, okf \in BOOLEAN, ck \in 0..2, cn \in ClosSizes :
+        \E ans \in AnswerSeqs(ChunkAlign(al)) : TryWithOp(s, al, okf, ck, cn, ans)
+  \/ \E s \in Sizes, al \in Aligns : \E ans \in AnswerSeqs(ChunkAlign(al)) : TryFillFail(s, al, ans)
   \/ ResetOp
   \/ \E lim \in Limits \cup {NoLimit} : SetLimit(lim)
   \/ DropOp
@@ -266,6 +269,13 @@ Init ==
   /\ heap = {} /\ live = {} /\ nslot = 0 /\ err = {}
 
 Spec == Init /\ [][Next]_vars
+
+\* Older chunks are never bumped again: their fingers and accounting fields cannot influence any
+\* later step (reset/drop free them by base/size/align only), and every invariant about them was
+\* checked when they were last written.  Identify states that differ only there.
+ViewAr == [ar EXCEPT !.ch = [i \in 1..Len(ar.ch) |->
+             IF i = Len(ar.ch) THEN ar.ch[i] ELSE [ar.ch[i] EXCEPT !.finger = 0, !.ab = 0]]]
+View == <<ViewAr, sent, heap, live, nslot, err>>
 
 \* ---------------------------------------------------------------- invariants
 NoObligationFailed == err = {}                                               \* per-step obligations
